@@ -17,6 +17,8 @@ def expand(ops):
         elif o[0] == 'session_nested':
             out.append(('session_set', o[1], o[2], o[3], o[4]))
             out.append(('session_set', o[1], o[2], o[5], o[6]))
+        elif o[0] in ('session_open', 'session_close'):
+            out.append(('save_session', o[1], o[3], o[2]))
         elif o[0] == 'session_span':
             out.append(('session_set', o[1], o[2], o[3], o[4]))
             out.append(('session_set', o[1], o[2], o[5], o[6]))
